@@ -114,7 +114,7 @@ def c18_7(cx):
     inloop = [s for s in asg if any(s.bb in t.reachable(succ, "normal") for succ, _ in t.succs(s.bb, "normal"))]
     cx.sites(inloop, 1, "resolved_thread := next_thread inside the walk")
     skip = CallIs(r"^std::cmp::PartialEq::eq$", True, [None, r"^\$3$"], desc="Some(next_key) == skip_over")
-    noskip = CallIs(r"^std::cmp::PartialEq::eq$", False, [None, r"^\$3$"], desc="Some(next_key) != skip_over")
+    noskip = Cmp(r"^Option::Some\{0: .*\}$", "!=", r"^\$3$", desc="Some(next_key) != skip_over")
     for s in inloop:
         cx.only_if(t, s, noskip, "a link's thread is adopted only if the link is not the one to skip")
     u = cx.fn(DG + r"unblock_transfer_target$")
@@ -129,7 +129,7 @@ def c18_7(cx):
     # on the re-transfer (Occupied, different owner) path both calls are reached unconditionally: the only way to skip them
     # is the Vacant arm with an unchanged thread or the no-op early return
     vac = VariantIn(r"HashMap::<K, V, S(, A)?>::entry\(\$1\.transferred, \$2\)$", {"Vacant"}, desc="first transfer of this query")
-    same = CallIs(r"^std::cmp::PartialEq::eq$", True, [r"OccupiedEntry::<'a, K, V, A>::get\(", r"^tuple\{0: .*, 1: \$4\}$"], desc="same (thread, owner) as before (no-op)")
+    same = Cmp(r"OccupiedEntry::<'a, K, V, A>::get\(", "==", r"^tuple\{0: .*, 1: \$4\}$", desc="same (thread, owner) as before (no-op)")
     for c, what in ((ut, "the new owner is resumed"), (ue, "dependents are re-pointed")):
         cx.skipped_only_if(tl, c, [vac, same], "after a RE-transfer %s regardless of the recorded threads (they may be stale)" % what, exits=tl.return_blocks())
 
